@@ -618,10 +618,69 @@ def oracle_general(res, case):
         res.fail("final-label-is-not-1/T", dict(payload, last_time=float(dyn.times[-1])))
 
 
+def oracle_energy_offset(res):
+    """the reduced thermal state does not depend on the zero of energy: H + c*1 for large |c| / T
+    (the weights exp(-E/T) are then tiny or huge in absolute terms; every truncation in the
+    backend must be RELATIVE), commuting and non-commuting models, closed form where it exists"""
+    import oqupy
+    T, alpha, wc = 1.0, 0.1, 3.0
+    lam = 2 * alpha * wc
+    s = np.array([1.0, 0.0, -1.0])
+    en = np.array([2.0, 0.0, -2.0])
+    hx = np.array([[0, 0.4, 0], [0.4, 0, 0.3j], [0, -0.3j, 0]], dtype=complex)
+
+    def state(H, epsrel, n=5):
+        corr = oqupy.PowerLawSD(alpha=alpha, zeta=1.0, cutoff=wc, cutoff_type="exponential", temperature=T)
+        g = oqupy.GibbsTempo(oqupy.System(H), oqupy.Bath(np.diag(s).astype(complex), corr),
+                             oqupy.GibbsParameters(n, epsrel))
+        g.compute(progress_type="silent")
+        return np.array(g.get_state())
+    e = en - lam * s ** 2
+    w = np.exp(-(e - e.min()) / T)
+    exact = np.diag(w / w.sum())
+    for name, h0, ref in (("commuting", np.diag(en).astype(complex), exact),
+                          ("non-commuting", np.diag(en).astype(complex) + hx, None)):
+        base = state(h0, 1e-9)
+        for shift, epsrel in ((24.0, 1e-9), (30.0, 1e-11), (-24.0, 1e-9), (12.0, 1e-9)):
+            st = state(h0 + shift * np.eye(3), epsrel)
+            want = ref if ref is not None else base
+            err = float(np.abs(st - want).max())
+            res.case("offset:%s:%+g" % (name, shift), True, {"offset": shift, "epsrel": epsrel, "error": err})
+            res.count("energy-offset:%s" % name)
+            if err > 1e-6:
+                res.fail("offset:%s model, H + %+g*identity at T=1" % (name, shift),
+                         {"api": "GibbsTempo", "oracle": "energy-offset", "model": name, "offset": shift,
+                          "epsrel": epsrel, "n_steps": 5, "T": T, "alpha": alpha, "cutoff": wc,
+                          "coupling_eigenvalues": s.tolist(), "error": err,
+                          "got_populations": np.diag(st).real.tolist(),
+                          "expected_populations": np.diag(want).real.tolist()})
+                return True
+    return False
+
+
+def oracle_cutoff_types(res):
+    """one commuting model per kind of spectral density (hard cutoff included), closed form"""
+    found = False
+    for kind in ("ohmic-hard", "ohmic-exp", "super-gauss", "custom-exp"):
+        sd = {"kind": kind, "wc": 3.0}
+        if kind == "custom-exp":
+            sd["g"] = 1.0
+        for d, o in ((2, [0.5, -0.8]), (3, [1.0, 0.2, -0.7])):
+            desc = {"d": d, "n": 4, "T": 0.7, "system": "diagonal", "coupling": "generic", "alpha": 0.4,
+                    "sd": kind, "sd_params": sd,
+                    "H": [[[0.3 * (i + 1) * (i == j), 0.0] for j in range(d)] for i in range(d)], "o": o}
+            before = len(res.failing)
+            oracle_commuting(res, case_from_desc(desc), steps=(3,), tag="forced sd=%s d=%d" % (kind, d))
+            found = found or len(res.failing) > before
+    return found
+
+
 def replay_case(res, payload):
     """re-judge one stored failing input (corpus/C11/*.json, --replay) on the real code"""
     fi = payload.get("failing_input", payload)
     key = payload.get("key", "")
+    if fi.get("oracle") == "energy-offset":
+        return oracle_energy_offset(res)
     before = len(res.failing)
     if key.startswith("zero-coupling"):
         H = np.array([[complex(z[0], z[1]) for z in row] for row in fi["hamiltonian"]])
@@ -671,6 +730,7 @@ def search(res):
                              [rng.gauss(0, 1) for _ in range(d)], 0.0, "random-complex")
     # (2) commuting models: closed form, independence of n
     oracle_commuting(res, fixed_commuting_case())
+    oracle_cutoff_types(res)
     # (2b) coupling operators with repeated eigenvalues (merged into one bond index by the backend)
     for name, case in repeated_eigenvalue_cases():
         oracle_commuting(res, case, steps=(2, 4), tag="repeated eigenvalues: " + name)
@@ -761,4 +821,6 @@ def run(tier, seed, replay):
             res.notes.append("correspondence skipped: generated model unavailable")
     except fw.Infra as e:
         res.oblige("correspondence run", False, str(e))
+    # always run (the backend's truncation is outside the translated loop): energy-offset invariance
+    oracle_energy_offset(res)
     return fw.finish(res, search)
